@@ -180,10 +180,11 @@ Definition multiply_m (a b : circuit) : res circuit :=
               end
             else none
         | LKron Ki1 ar1, LKron Ki2 ar2 =>
-            if length ins1 =? length ins2 then
-              let s1 := sort_by (fun p => min_of (nth p sa [])) ins1 in
-              let s2 := sort_by (fun q => min_of (nth q sb [])) ins2 in
-              match omap (fun pq => get (fst pq) (snd pq)) (combine s1 s2) with
+            (* the input order of a Kronecker layer fixes its unit order: inputs are paired
+               positionally and must already be aligned (same scopes in the same order) *)
+            if (length ins1 =? length ins2)
+               && forallb (fun pq => seqb (nth (fst pq) sa []) (nth (snd pq) sb [])) (combine ins1 ins2) then
+              match omap (fun pq => get (fst pq) (snd pq)) (combine ins1 ins2) with
               | Some cs =>
                   let ar := Nat.max ar1 ar2 in
                   let n := Nat.pow (Ki1 * Ki2) ar in
